@@ -17,3 +17,101 @@ fn c20_item_packing() {
     assert!(a.rewind_dot() == it);
     kani::cover!(start == u32::MAX as usize && rule == u32::MAX - 1);
 }
+
+// ---------------------------------------------------------------- K13.3 forced_byte probe (source slice)
+// The statements of the speculative closure of ParserState::forced_byte after `let mut r = ParserRecognizer { state };`
+// are cut from /repo's current source and run against a mock recogniser whose set of viable bytes is symbolic:
+// the probe reports Some(b) exactly when b is the one and only viable byte, for every lexer hint.
+struct MockRec {
+    viable: [bool; 256],
+    depth: usize,
+}
+
+impl MockRec {
+    fn try_push_byte(&mut self, b: u8) -> bool {
+        if self.viable[b as usize] {
+            self.depth += 1;
+            true
+        } else {
+            false
+        }
+    }
+    fn pop_bytes(&mut self, n: usize) {
+        assert!(self.depth >= n);
+        self.depth -= n;
+    }
+}
+
+#[allow(unused_mut, unused_variables, clippy::all)]
+fn k13_probe(quick_res: NextByte, r: &mut MockRec) -> Option<u8> {
+    include!("verif_forced_byte_slice.rs")
+}
+
+fn k13_any_hint() -> NextByte {
+    let k: u8 = kani::any();
+    let a: u8 = kani::any();
+    let b: u8 = kani::any();
+    match k % 5 {
+        0 => NextByte::ForcedEOI,
+        1 => NextByte::SomeBytes0,
+        2 => NextByte::SomeBytes1(a),
+        3 => {
+            // derivre reports two *distinct* example bytes
+            kani::assume(a != b);
+            NextByte::SomeBytes2([a, b])
+        }
+        _ => NextByte::Dead,
+    }
+}
+
+#[kani::proof]
+#[kani::unwind(258)]
+fn k13_3_forced_byte_probe() {
+    let viable: [bool; 256] = kani::any();
+    let hint = k13_any_hint();
+    let mut r = MockRec { viable, depth: 0 };
+    let got = k13_probe(hint, &mut r);
+    // specification: the unique viable byte, if there is exactly one
+    let x: u8 = kani::any();
+    let y: u8 = kani::any();
+    match got {
+        Some(b) => {
+            assert!(viable[b as usize]);
+            // no other byte is viable
+            assert!(!viable[x as usize] || x == b);
+        }
+        None => {
+            // either nothing is viable or at least two bytes are: x and y cannot witness "exactly one"
+            if viable[x as usize] {
+                // then some other byte is viable too: checked by counting
+                let mut n = 0u32;
+                let mut i = 0usize;
+                while i < 256 {
+                    if viable[i] {
+                        n += 1;
+                    }
+                    i += 1;
+                }
+                assert!(n >= 2);
+            }
+        }
+    }
+    let _ = y;
+    // every speculative push was popped again unless the probe stopped at the second viable byte
+    assert!(r.depth <= 1);
+    kani::cover!(got.is_some());
+    kani::cover!(got.is_none() && viable[x as usize]);
+    kani::cover!(got.is_none() && matches!(hint, NextByte::SomeBytes2(_)));
+    kani::cover!(matches!(got, Some(b) if matches!(hint, NextByte::SomeBytes1(h) if h == b.wrapping_add(1))));
+}
+
+#[kani::proof]
+#[kani::unwind(258)]
+fn k13_3_witness_must_fail() {
+    let viable: [bool; 256] = kani::any();
+    let hint = k13_any_hint();
+    let mut r = MockRec { viable, depth: 0 };
+    let got = k13_probe(hint, &mut r);
+    // wrong on purpose: claims the probe never finds a forced byte
+    assert!(got.is_none());
+}
